@@ -212,6 +212,8 @@ class Normalizer:
         for f in list(repo.funcs.values()):
             self._replace_node(f, self.desugar_listcomp(f))
         for f in list(repo.funcs.values()):
+            self._replace_node(f, self.desugar_next(f))
+        for f in list(repo.funcs.values()):
             self._replace_node(f, self.positional(f))
         for f in list(repo.funcs.values()):
             self._replace_node(f, self.propagate(f))
@@ -757,6 +759,95 @@ class Normalizer:
         new = copy.copy(f.node)
         new.body = block(list(f.node.body))
         return new if hit[0] else None
+
+    # ------------------------------------------------------------------------------------------ N9
+    def desugar_next(self, f: Func) -> t.Optional[FuncNode]:
+        """V = next((ELT for T1 in I1 for T2 in I2 if C), D)   ->   V = D; for T1 in I1: for T2 in I2: if C: V = ELT; break ...
+        (first match in iteration order; the generator may be bound to a local that is used only by that next())."""
+        hit = [False]
+        fn = f.node
+        gens: t.Dict[str, t.Tuple[ast.GeneratorExp, ast.stmt]] = {}
+        uses: t.Dict[str, int] = {}
+        for n in _walk_no_scopes(fn):
+            if isinstance(n, ast.Name) and isinstance(n.ctx, ast.Load):
+                uses[n.id] = uses.get(n.id, 0) + 1
+        for n in _walk_no_scopes(fn):
+            if isinstance(n, (ast.Assign, ast.AnnAssign)) and isinstance(n.value, ast.GeneratorExp):
+                tg = n.targets[0] if isinstance(n, ast.Assign) and len(n.targets) == 1 else getattr(n, "target", None)
+                if isinstance(tg, ast.Name) and uses.get(tg.id, 0) == 1:
+                    gens[tg.id] = (n.value, n)
+        drop: t.Set[int] = set()
+
+        def loops(g: ast.GeneratorExp, var: ast.Name, at: ast.AST) -> t.List[ast.stmt]:
+            hitb: ast.stmt = ast.copy_location(ast.Assign(targets=[ast.Name(id=var.id, ctx=ast.Store())], value=g.elt), at)
+            body: t.List[ast.stmt] = [hitb, ast.copy_location(ast.Break(), at)]
+            first = True
+            for comp in reversed(g.generators):
+                for c in reversed(comp.ifs):
+                    body = [ast.copy_location(ast.If(test=c, body=body, orelse=[]), at)]
+                if not first:
+                    # leave the outer loop too when the inner one was left by break
+                    body = body + []
+                loop = ast.copy_location(ast.For(target=comp.target, iter=comp.iter, body=body, orelse=[]), at)
+                if not first:
+                    inner = t.cast(ast.For, body[-1]) if isinstance(body[-1], ast.For) else None
+                    if inner is not None:
+                        inner.orelse = [ast.copy_location(ast.Continue(), at)]
+                        loop.body = body + [ast.copy_location(ast.Break(), at)]
+                body = [loop]
+                first = False
+            return body
+
+        def block(stmts: t.List[ast.stmt]) -> t.List[ast.stmt]:
+            out: t.List[ast.stmt] = []
+            for s in stmts:
+                if isinstance(s, (ast.FunctionDef, ast.AsyncFunctionDef, ast.ClassDef)):
+                    out.append(s)
+                    continue
+                s2 = s
+                for fld in ("body", "orelse", "finalbody"):
+                    blk = getattr(s, fld, None)
+                    if isinstance(blk, list) and blk and isinstance(blk[0], ast.stmt):
+                        if s2 is s:
+                            s2 = copy.copy(s)
+                        setattr(s2, fld, block(blk))
+                v = getattr(s2, "value", None)
+                tgt = s2.targets[0] if isinstance(s2, ast.Assign) and len(s2.targets) == 1 else (s2.target if isinstance(s2, ast.AnnAssign) else None)
+                if isinstance(s2, (ast.Assign, ast.AnnAssign)) and isinstance(tgt, ast.Name) and isinstance(v, ast.Call) and isinstance(v.func, ast.Name) and v.func.id == "next" and len(v.args) == 2 and not v.keywords:
+                    g0 = v.args[0]
+                    gen: t.Optional[ast.GeneratorExp] = g0 if isinstance(g0, ast.GeneratorExp) else None
+                    if isinstance(g0, ast.Name) and g0.id in gens:
+                        gen, defstmt = gens[g0.id]
+                        drop.add(id(defstmt))
+                    if gen is not None and not any(c.is_async for c in gen.generators):
+                        init = copy.copy(s2)
+                        init.value = v.args[1]
+                        out.append(init)
+                        out.extend(loops(gen, tgt, s2))
+                        hit[0] = True
+                        continue
+                out.append(s2)
+            return out
+
+        new = copy.copy(fn)
+        new.body = block(list(fn.body))
+        if not hit[0]:
+            return None
+
+        def prune(stmts: t.List[ast.stmt]) -> t.List[ast.stmt]:
+            res = []
+            for s in stmts:
+                if id(s) in drop:
+                    continue
+                for fld in ("body", "orelse", "finalbody"):
+                    blk = getattr(s, fld, None)
+                    if isinstance(blk, list) and blk and isinstance(blk[0], ast.stmt):
+                        setattr(s, fld, prune(blk) or [ast.Pass()])
+                res.append(s)
+            return res
+
+        new.body = prune(new.body)
+        return new
 
     # ------------------------------------------------------------------------------------------ N7
     def unflag_loops(self, f: Func) -> t.Optional[FuncNode]:
